@@ -11,6 +11,26 @@ func init() {
 		Decides:    "that each specialised opcode the compiler chooses from static types (under IsSubtype(_, Std::Int / Std::Float)) is executed by a handler that reads the operand with the accessors of exactly those representations; otherwise the specialised path reinterprets the operand's bits and disagrees with the generic path.",
 		NotCovered: "equality of results where generic and specialised paths legitimately call different functions; constant folding versus run-time evaluation; statically bound versus dynamically resolved calls.",
 	}
+	props["C12"] = &PropSpec{
+		Rules:      []string{"path/savedrestore-checker"},
+		Decides:    "that checker and compiler context (mode, flags, catch scopes, return/throw type, ...) which a function saves, changes and restores is restored on every exit path, and that a function bracketing several fields does not reset a sibling field to a constant instead; a leak is exactly how an unused nested construct (a closure literal, a failed compatibility check) changes the verdict on the code that follows it.",
+		NotCovered: "renaming, parenthesisation, reordering of declarations: relations between two whole checker runs.",
+	}
+	props["C34"] = &PropSpec{
+		Rules:      []string{"test/filter-guard", "test/exit-status", "test/suite-filter-eval", "path/savedrestore-test"},
+		Decides:    "that a case or sub-suite is registered only on the matching branch of the filter test; that the filter combination function SuiteMatchesFilters has the specified result for every sequence of up to three filter answers (exhaustive over a finite domain it touches only through comparisons); that `elk test` exits non-zero unless the report exists and is TEST_SUCCESS; that `describe` restores the current suite on every exit.",
+		NotCovered: "that every registered case runs exactly once and that reports aggregate child statuses correctly; path/regex filter matching itself.",
+	}
+	props["C26"] = &PropSpec{
+		Rules:      []string{"path/lock-symboltable"},
+		Decides:    "the locking discipline that makes interning atomic: every access to the name and id tables holds the table's RWMutex in a sufficient mode on every path, Add looks the name up and inserts it inside one write-locked section (no check-then-act window), and only the type's own functions touch the tables.",
+		NotCovered: "nothing further is needed for the discipline; bijectivity then follows from the five-line sequential body of Add, which is assumed, not proved. ExistsId's unlocked length read is a reasoned exception.",
+	}
+	props["C11"] = &PropSpec{
+		Rules:      []string{"path/lock-containers"},
+		Decides:    "that the synchronised containers shared by the parallel method-body checker (concurrent.Slice/Map/Set/OrderedMap, SyncDiagnosticList) take their own mutex, in a sufficient mode, around every access to the wrapped collection in every method not explicitly marked unsynchronised.",
+		NotCovered: "which other state the parallel region shares and whether it is locked (a whole-program shared-write analysis is not claimed yet); equality of diagnostics and compiled code across schedules (symbol ids, ordering), which is a property of interleavings.",
+	}
 	props["C10"] = &PropSpec{
 		Rules:      []string{"cover/rebase"},
 		Decides:    "that growing the value stack (the one place where a sizing parameter changes what the VM does) moves every location holding a stack address by exactly new + (p - old), updates every field derived from the stack length, visits the complete open-upvalue list once and leaves native call frames alone. The set of locations is recomputed by taint on every run, so a new cached pointer or size-derived field becomes an obligation automatically.",
